@@ -1,2 +1,64 @@
-// verification hooks (see /verif/DESIGN.md section 10); compiled only with --features verif-hooks
+// Verification hooks for src/lru/two_queue.rs (child module: sees private fields).
 #![allow(missing_docs, dead_code, unused_imports)]
+
+use super::*;
+pub use crate::verif_hooks::spec::{Abs, Vid, NMAX};
+
+#[derive(Clone, Copy, PartialEq, Eq, Debug)]
+pub struct TqAbs {
+    pub size: usize,
+    /// quota of the recent queue
+    pub recent_size: usize,
+    pub recent: Abs,
+    pub frequent: Abs,
+    pub ghost: Abs,
+}
+
+impl<K: Hash + Eq, V, RH, FH, GH> TwoQueueCache<K, V, RH, FH, GH> {
+    #[doc(hidden)]
+    pub fn verif_abs(&self) -> TqAbs
+    where
+        K: Vid,
+        V: Vid,
+    {
+        TqAbs {
+            size: self.size,
+            recent_size: self.recent_size,
+            recent: self.recent.verif_abs(),
+            frequent: self.frequent.verif_abs(),
+            ghost: self.ghost.verif_abs(),
+        }
+    }
+}
+
+#[cfg(kani)]
+impl<K: Hash + Eq, V, RH: BuildHasher, FH: BuildHasher, GH: BuildHasher> TwoQueueCache<K, V, RH, FH, GH> {
+    pub(crate) fn verif_from_parts(
+        size: usize,
+        recent_size: usize,
+        recent: RawLRU<K, V, DefaultEvictCallback, RH>,
+        frequent: RawLRU<K, V, DefaultEvictCallback, FH>,
+        ghost: RawLRU<K, V, DefaultEvictCallback, GH>,
+    ) -> Self {
+        TwoQueueCache { size, recent_size, recent, frequent, ghost }
+    }
+
+    pub(crate) fn verif_check(&self) -> (TqAbs, bool)
+    where
+        K: Vid,
+        V: Vid,
+    {
+        let (r, w1) = self.recent.verif_check();
+        let (f, w2) = self.frequent.verif_check();
+        let (g, w3) = self.ghost.verif_check();
+        (TqAbs { size: self.size, recent_size: self.recent_size, recent: r, frequent: f, ghost: g }, w1 && w2 && w3)
+    }
+
+    pub(crate) fn verif_forget(self) {
+        core::mem::forget(self)
+    }
+}
+
+#[cfg(kani)]
+#[path = "/verif/kani/harness_two_queue.rs"]
+pub(crate) mod harness;
